@@ -52,7 +52,53 @@ def classify(ev):
     return "valid"
 
 
+def gen_shutdown(rng):
+    """acknowledged, then an orderly shutdown before the background writer got to it, then a restart: what was
+    answered OK=true is retrievable afterwards"""
+    backend = rng.choice(["lmdb", "lmdb", "sql"])
+    h = histgen.Hist(rng, nauthors=2)
+    for _ in range(rng.randint(1, 6)):
+        c = rng.random()
+        h.add(h.regular() if c < 0.7 else (h.replaceable() if c < 0.85 else h.ephemeral()))
+        if rng.random() < 0.2:
+            h.ops.append(["settle"])
+    h.ops.append(["restart_now"])
+    for _ in range(rng.randint(0, 2)):
+        h.add(h.regular())
+    h.ops.append(["settle"])
+    return {"mode": "shutdown", "backend": backend, "ops": h.ops}
+
+
+def run_shutdown(case, sim):
+    from ..worlds import store
+    w, obs = store.run_store(sim, case["backend"], case["ops"], settle_each=False)
+    viol = []
+    acked = []
+    final = None
+    for o in obs:
+        if o["op"][0] == "add" and o.get("res", [None])[0] == "ok" and o["res"][1]:
+            acked.append(o["op"][1])
+        if o["op"][0] == "restart_now":
+            final = o.get("post")
+            must = list(acked)
+            for e in must:
+                if model.is_ephemeral(e["kind"]):
+                    continue
+                a = model.address(e)
+                superseded = a is not None and any(model.address(x) == a and x["created_at"] >= e["created_at"] and x is not e
+                                                   for x in must)
+                if e["id"] not in (final or {}) and not superseded:
+                    viol.append({"cls": "acked-but-lost", "sig": "acked-but-lost|%s|shutdown" % case["backend"],
+                                 "detail": {"event": oracles.brief(e), "acknowledged_before_shutdown": len(must),
+                                            "stored_after_restart": len(final or {})}})
+                    break
+    return {"violations": viol[:1], "nontrivial": bool(acked), "probes": {"mode_shutdown": 1, "backend_" + case["backend"]: 1},
+            "signature": qcommon.h16(("shutdown", case["backend"], [o[0] for o in case["ops"]]))}
+
+
 def gen(rng, knobs):
+    if rng.random() < 0.08:
+        return gen_shutdown(rng)
     backend = rng.choice(["sql", "lmdb"])
     h = histgen.Hist(rng, nauthors=3)
     clients = []
@@ -144,6 +190,15 @@ def gen(rng, knobs):
             at = rng.randint(1, len(script))
             script[at:at] = [["send", json.dumps(["EVENT", e])] for e in seq]
         clients.append({"script": script})
+    if rng.random() < 0.2:
+        # the same fresh events presented on two connections at the same moment: stored once, acknowledged as
+        # new at most ... well, broadcast once
+        twins = [h.regular() for _ in range(rng.randint(1, 3))]
+        while len(clients) < 3:
+            clients.append({"script": [["barrier"]]})
+        for cl in clients[1:3]:
+            head = [["send", json.dumps(["EVENT", e])] for e in rng.sample(twins, len(twins))]
+            cl["script"][1:1] = head
     return {"backend": backend, "clients": clients,
             "storage_opts": histgen.pool_knob(rng, backend),
             "sched": {**histgen.stall_knob(rng), "client": rng.choice([0.5, 1.0, 3.0]), "sql": rng.choice([0.3, 1.0, 3.0]),
@@ -152,6 +207,8 @@ def gen(rng, knobs):
 
 
 def sample(case):
+    if case.get("mode") == "shutdown":
+        return {"mode": "shutdown", "backend": case["backend"], "ops": [o[0] for o in case["ops"]]}
     out = []
     for c in case["clients"][1:]:
         for it in c["script"]:
@@ -169,6 +226,8 @@ def parse(text):
 
 
 def run(case, sim):
+    if case.get("mode") == "shutdown":
+        return run_shutdown(case, sim)
     backend = case["backend"]
     w = relay.RelayWorld(sim, backend, case["clients"], storage_opts=case.get("storage_opts")).run()
     viol = []
